@@ -2,6 +2,7 @@
 //! current working tree) on generated or replayed operations and prints one
 //! line per operation: the question and the crate's answer.
 mod gen;
+mod hd;
 mod ops;
 mod pools;
 mod rng;
@@ -31,6 +32,9 @@ fn main() {
                 let mut r = rng::Rng::new(seed.wrapping_mul(0x9E3779B97F4A7C15).wrapping_add(n as u64).wrapping_mul(0xD1B54A32D192ED03) ^ (n as u64) << 32 ^ seed);
                 let (mode, input) = gen::gen_case(prop, &mut r, n, tier == "thorough");
                 let id = format!("#{}-{}-{}", prop, seed, n);
+                if cfg!(not(feature = "hardcoded")) && ops::needs_builtin_data(&input) {
+                    continue;
+                }
                 writeln!(out, "{}", ops::run_counted(&id, &mode, &input)).unwrap();
             }
         }
@@ -39,6 +43,9 @@ fn main() {
             for line in stdin.lock().lines() {
                 let line = line.unwrap();
                 if let Some((id, mode, input)) = ops::parse_line(&line) {
+                    if cfg!(not(feature = "hardcoded")) && ops::needs_builtin_data(&input) {
+                        continue;
+                    }
                     writeln!(out, "{}", ops::run_counted(&id, &mode, &input)).unwrap();
                 }
             }
@@ -48,6 +55,7 @@ fn main() {
             if cfg!(feature = "std") { f.push("std"); }
             if cfg!(feature = "smallvec") { f.push("smallvec"); }
             if cfg!(feature = "serde") { f.push("serde"); }
+            if cfg!(feature = "hardcoded") { f.push("hardcoded-data"); }
             writeln!(out, "{}", f.join(",")).unwrap();
         }
         _ => {
